@@ -26,7 +26,7 @@ KINDS_T = ("Z", "V", "short", "open", "I", "LV")
 
 
 def budget_s(tier):
-    return 300 if tier == "quick" else 7200
+    return 1200 if tier == "quick" else 10800
 
 
 # (n, b, kinds, depth, min_shorts, orient_mode)
